@@ -204,7 +204,37 @@ class Gen:
                     node['plan']['fail_when'] = sorted(rng.sample(ins, rng.randint(1, len(ins) - 1)))
         return ['oneof', cands]
 
-    def make_rec(self, visible, depth, in_cand):
+    def make_inner_rec(self, outer_sub, visible):
+        """A nested recurrent subgraph consumed by a node of the outer subgraph.  Its start node ignores
+        additional_data (DESIGN A5) and the destination iterates a fixed number of times per arguments."""
+        rng = self.rng
+        s2 = self.new_node(start_of=True)
+        s2['plan']['use_ad'] = False
+        self.flags[s2['id']].add('private_rec')
+        src = rng.choice(outer_sub) if rng.random() < 0.7 else (rng.choice(self.shareable(visible, False) or ['N0']))
+        s2['params'].append(['a', ['in', src]])
+        self.finish(s2)
+        chain = [s2['id']]
+        if rng.random() < 0.5 and self.budget >= 2:
+            m2 = self.new_node()
+            self.flags[m2['id']].add('private_rec')
+            m2['params'].append(['a', ['in', s2['id']]])
+            self.finish(m2)
+            chain.append(m2['id'])
+        mx = rng.randint(1, 2)
+        d2 = self.new_node(kind='dest', recurrent=True)
+        self.flags[d2['id']].add('dest')
+        d2['params'].append(['a', ['in', chain[-1]]])
+        if rng.random() < 0.4:
+            # an input that only the outer subgraph re-computes
+            d2['params'].append(['b', ['in', rng.choice(outer_sub)]])
+        d2['plan'].update({'start': s2['id'], 'iter_by_attempt': rng.randint(0, mx + 1)})
+        if rng.random() < 0.5:
+            d2['retry'] = {'use_default': True}
+        self.finish(d2)
+        return ['rec', s2['id'], d2['id'], mx]
+
+    def make_rec(self, visible, depth, in_cand, nested_ok=True):
         rng = self.rng
         # start node
         start = self.new_node(start_of=True)
@@ -233,6 +263,8 @@ class Gen:
                 sh = self.shareable(visible, False)
                 if sh:
                     mid['params'].append(['c', ['in', rng.choice(sh)]])
+            if nested_ok and self.budget >= 3 and rng.random() < self.p.get('p_rec_nested', 0.2):
+                mid['params'].append(['n', self.make_inner_rec(sub, visible)])
             self.decorate(mid, allow_fail=rng.random() < 0.3)
             self.finish(mid)
             sub.append(mid['id'])
